@@ -82,8 +82,9 @@ Proof.
                 subs_att lk (fst (fst (fold_left (remove_session_sub sid) ids acc))) /\
                 to_att lk (snd (fold_left (remove_session_sub sid) ids acc))).
   { induction ids0 as [|id ids0 IH]; intros acc A B; cbn [fold_left]; [auto|].
-    apply IH; destruct acc as [[b1 pg1] o1]; cbn [fst snd] in *; unfold remove_session_sub.
-    - destruct (nget (b_subs b1) id) as [s|] eqn:E; [|exact A].
+    assert (S : subs_att lk (fst (fst (remove_session_sub sid acc id)))).
+    { destruct acc as [[b1 pg1] o1]; cbn [fst snd] in *; unfold remove_session_sub.
+      destruct (nget (b_subs b1) id) as [s|] eqn:E; [|exact A].
       match goal with |- context [if ?c then _ else _] => destruct c end; cbn [fst].
       + intros id' s' x Hs Hx. unfold del_subscription in Hs.
         assert (Hs' : nget (ndel (b_subs b1) (sub_id (mkSub (sub_id s) (sub_topic s) (sub_match s) (nremove sid (sub_subs s))))) id' = Some s').
@@ -91,14 +92,15 @@ Proof.
         rewrite ngd in Hs'. destruct (N.eqb id' _); [discriminate|]. eapply A; eauto.
       + intros id' s' x Hs Hx. cbn [b_subs b_set_subs] in Hs. rewrite ngs in Hs.
         destruct (N.eqb_spec id' id) as [->|Hn]; [|eapply A; eauto].
-        inversion Hs; subst s'. cbn [sub_subs] in Hx. apply In_nremove in Hx. eapply A; [exact E|tauto].
-    - destruct (nget (b_subs b1) id) as [s|] eqn:E; [|exact B].
-      match goal with |- context [if ?c then _ else _] => destruct c end; cbn [snd]; [|exact B].
-      apply to_att_app; [exact B|]. apply sub_meta_event_att.
-      intros id' s' x Hs Hx. unfold del_subscription in Hs.
-      assert (Hs' : nget (ndel (b_subs b1) (sub_id (mkSub (sub_id s) (sub_topic s) (sub_match s) (nremove sid (sub_subs s))))) id' = Some s').
-      { destruct (mkind_of _); exact Hs. }
-      rewrite ngd in Hs'. destruct (N.eqb id' _); [discriminate|]. eapply A; eauto. }
+        inversion Hs; subst s'. cbn [sub_subs] in Hx. apply In_nremove in Hx. eapply A; [exact E|tauto]. }
+    apply IH; [exact S|].
+    (* on_unsubscribe, and on_delete when the subscription went away, go to
+       subscribers of the broker the leaver is already removed from *)
+    destruct acc as [[b1 pg1] o1]; cbn [fst snd] in *. revert S. unfold remove_session_sub.
+    destruct (nget (b_subs b1) id) as [s|] eqn:E; [|intros _; exact B].
+    match goal with |- context [if ?c then _ else _] => destruct c end; cbn [fst snd]; intros S.
+    + apply to_att_app; [exact B|]. apply to_att_app; apply sub_meta_event_att; exact S.
+    + apply to_att_app; [exact B|]. apply sub_meta_event_att; exact S. }
   apply G; [exact H|apply to_att_nil].
 Qed.
 
